@@ -56,7 +56,9 @@ Enabled(s, a) ==
 R1(a, b) == InsertV("T1", << <<a, b>> >>)
 Prefixes == { <<>>,
               << R1(I(0), S("a")), R1(I(1), S("ab")), R1(I(1), S("a")), CreateIdx("I1", <<IdxCol("A", "asc", 0)>>, FALSE) >>,
-              << R1(I(2), S("ab")), R1(NULL, S("a")), CreateIdx("I3", <<IdxCol("A", "asc", 0), IdxCol("B", "asc", 0)>>, FALSE) >> }
+              << R1(I(2), S("ab")), R1(NULL, S("a")), CreateIdx("I3", <<IdxCol("A", "asc", 0), IdxCol("B", "asc", 0)>>, FALSE) >>,
+              \* two rows under a UNIQUE index: one UPDATE away from a duplicate key
+              << R1(I(0), S("a")), R1(I(1), S("ab")), CreateIdx("I4", <<IdxCol("A", "asc", 0)>>, TRUE) >> }
 Init == \E pre \in Prefixes : st = Run(InitSt, Setup \o pre) /\ hist = Setup \o pre /\ base = Len(Setup \o pre)
 Next == \E a \in Alphabet : Enabled(st, a) /\ st' = Apply(st, a).st /\ hist' = Append(hist, a) /\ base' = base
 View == st
@@ -79,7 +81,9 @@ Probes == SetToSeqAny(
     \cup { P(CmpE("=", B1, Lit(S("a")))), P(CmpE("=", B1, Lit(S("ab")))), P(CmpE(">=", B1, Lit(S("ab")))), P(LikeE(B1, Lit(S("a%")), FALSE)) }
     \cup { PO(NoExpr, <<OrdE(A1, d)>>, l) : d \in {"asc", "desc"}, l \in {-1, 1, 2} }
     \cup { PO(CmpE(">=", A1, L(1)), <<OrdE(A1, "asc"), OrdE(B1, "desc")>>, -1), PO(NoExpr, <<OrdE(B1, "desc"), OrdE(A1, "desc")>>, 2),
-           PO(NoExpr, <<OrdE(A1, "asc"), OrdE(B1, "asc")>>, -1), PO(CmpE("=", A1, L(1)), <<OrdE(B1, "asc")>>, 1) }
+           PO(NoExpr, <<OrdE(A1, "asc"), OrdE(B1, "asc")>>, -1), PO(CmpE("=", A1, L(1)), <<OrdE(B1, "asc")>>, 1),
+           \* an IN list that is not in ascending order, combined with an ORDER BY the same index can serve
+           PO(InListE(A1, <<L(2), L(0), L(1)>>, FALSE), <<OrdE(A1, "asc")>>, -1), PO(InListE(A1, <<L(1), L(0)>>, FALSE), <<OrdE(A1, "desc")>>, 2) }
     \cup { [BaseSel(TableRef("T1")) EXCEPT !.star = FALSE, !.sel = <<SelItem(CountStar, "N"), SelItem(AggE("min", A1, FALSE), "MI"), SelItem(AggE("max", A1, FALSE), "MA")>>, !.where = w]
               : w \in {NoExpr, CmpE(">=", A1, L(1))} } )
 ASSUME PrintT(<<"PROBES", ToJson([i \in 1..Len(Probes) |-> QueryA(Probes[i])])>>)
